@@ -84,6 +84,39 @@ def canonical_xfen(abs_s):
     return f"{'/'.join(rows)} {turn} {cas} {eps} {hm} {fm}"
 
 
+def expected_rights(fen):
+    """X-FEN reading of the castling field: K/Q/k/q = outermost rook on that side of the king, a letter = that file;
+    returns the four rook files as the driver prints them (wk wq bk bq, '-' when absent) or None if not applicable"""
+    parts = fen.split(" ")
+    b = G.parse_board(fen)
+    res = {"wk": "-", "wq": "-", "bk": "-", "bq": "-"}
+    if parts[2] == "-":
+        return "----"
+    for ch in parts[2]:
+        white = ch.isupper()
+        r = 0 if white else 7
+        kf = [f for f in range(8) if b.get(8 * r + f) == ("K" if white else "k")]
+        if not kf:
+            return None
+        kf = kf[0]
+        rooks = [f for f in range(8) if b.get(8 * r + f) == ("R" if white else "r")]
+        c = ch.lower()
+        if c == "k":
+            side = [f for f in rooks if f > kf]
+            if not side:
+                return None
+            res[("w" if white else "b") + "k"] = str(max(side))
+        elif c == "q":
+            side = [f for f in rooks if f < kf]
+            if not side:
+                return None
+            res[("w" if white else "b") + "q"] = str(min(side))
+        else:
+            f = FILES.index(c)
+            res[("w" if white else "b") + ("k" if f > kf else "q")] = str(f)
+    return res["wk"] + res["wq"] + res["bk"] + res["bq"]
+
+
 # ====================================================================== C06
 def check_C06(run):
     rng = run.rng
@@ -276,17 +309,25 @@ def check_C07(run):
                     run.violation("model-mismatch", f"{mode}: implementation {am}, model {bm} (or fields differ)",
                                   {"mode": mode, "string": s, "implementation": a, "model": b}, found_input=False)
     # well-formed strings spell out the position: compare with the independent reading of the string
-    wf = [s for s, c in strings if c in ("canonical", "shredder")][: (800 if th else 150)]
+    two_rooks = ["rr2k3/8/8/8/8/8/8/4K3 b q - 0 1", "4k1rr/8/8/8/8/8/8/4K3 w k - 0 1", "4k3/8/8/8/8/8/8/RR2K3 w Q - 0 1",
+                 "4k3/8/8/8/8/8/8/4K1RR b K - 0 1", "rr2k1rr/8/8/8/8/8/8/RR2K1RR w KQkq - 3 9", "r1r1k3/8/8/8/8/8/8/R1R1K3 b Qq - 0 1",
+                 "1rr1k3/8/8/8/8/8/8/4K3 w q - 0 1", "4k3/8/8/8/8/8/8/3K1R1R w K - 0 1"]
+    wf = two_rooks + [s for s, c in strings if c in ("canonical", "shredder")][: (800 if th else 150)]
     outs, _ = vlib.run_impl_par([f"fenraw\twrapping\t{enc(s)}" for s in wf])
     ab = abs_of([o[3:] for o in outs if o.startswith("ok ")])
     for s, o in zip([s for s, oo in zip(wf, outs) if oo.startswith("ok ")], ab):
         got = canonical_xfen(o.split("abs=")[1].split(" ")[0])
         want = s
         run.note_case(("denote", s), "denotation")
-        # compare everything except the castling spelling (KQkq vs letters denote the same rooks here)
-        if got.split(" ")[0] != want.split(" ")[0] or got.split(" ")[1] != want.split(" ")[1] or got.split(" ")[3:] != want.split(" ")[3:]:
+        # placement, turn, ep, clocks verbatim; castling: the rook files an independent X-FEN reading assigns to the letters
+        rights_got = o.split("abs=")[1].split(" ")[0].split("/")[2]
+        rights_want = expected_rights(s)
+        if got.split(" ")[0] != want.split(" ")[0] or got.split(" ")[1] != want.split(" ")[1] or got.split(" ")[3:] != want.split(" ")[3:] \
+                or (rights_want is not None and rights_got != rights_want):
             nv += 1
-            run.violation("wrong-denotation", "a well-formed FEN is parsed into a different position", {"string": s, "position_read_back": got})
+            run.violation("wrong-denotation", "a well-formed FEN is parsed into a different position",
+                          {"string": s, "position_read_back": got, "castling_rook_files_read(wk,wq,bk,bq)": rights_got,
+                           "castling_rook_files_spelled": rights_want})
     run.cov["traces_validated_against_impl"] = total
     run.sample({"string": strings[0][0], "class": strings[0][1]})
     run.sample({"string": bad[0], "class": "mutant"})
@@ -478,8 +519,62 @@ def check_C05(run):
             nv += 1
             if nv <= 25:
                 run.violation("model-mismatch", "fields or keys differ from the model's", {"request": r, "implementation": a, "model": b}, found_input=False)
-    run.cov["traces_validated_against_impl"] = len(rq)
+    # the same through the real command loop of the binary (uci/listen.rs): options, optional ucinewgame, position, print, history
+    import props_proc
+    rel = vlib.build_engine("release")
+    pcases = []
+    for c in cur:
+        if rng.random() < (0.5 if th else 0.25) and len(pcases) < (400 if th else 70):
+            pcases.append(c)
+    # Chess960 castling in king-takes-rook notation right after ucinewgame
+    for fen, toks in (("r3k2r/8/8/8/8/8/8/R3K2R w KQkq - 0 1", ["e1h1", "e8a8"]), ("rk4r1/pppppppp/8/8/8/8/PPPPPPPP/RK4R1 b KQkq - 3 7", ["b8a8", "b1a1", "zzzz", "h7h5"]),
+                      ("nrk2rbb/pppppppp/8/8/8/8/PPPPPPPP/NRK2RBB w KQkq - 0 1", ["g2g3", "g7g6", "h1g2", "h8g7", "c1f1", "c8f8"])):
+        pcases.append(("1", fen, fen, toks, 0, 0))
+    pj, pspec = [], []
+    for c in pcases:
+        frc = c[0] == "1"
+        script = (["setoption name UCI_Chess960 value true"] if frc else []) + ["isready"] + \
+                 (["ucinewgame"] if rng.random() < 0.6 or c[4] == 0 else []) + \
+                 ["position fen " + c[1] + ((" moves " + " ".join(c[3])) if c[3] else ""), "print", "history", "quit"]
+        pj.append(script)
+        pspec.append(f"posspec\t{c[0]}\t{c[1]}\t{' '.join(c[3])}")
+    pres = vlib.par_map(lambda sc: props_proc.run_engine(rel, sc, timeout=60), pj)
+    pso = vlib.run_model_par(pspec)
+    for sc, (out, err, rc, to), so in zip(pj, pres, pso):
+        run.note_case(tuple(sc), "process-level")
+        lines = [l for l in out.split("\n")]
+        try:
+            k = next(i for i, l in enumerate(lines) if l.startswith("Turn: "))
+        except StopIteration:
+            k = None
+        if to or rc != 0 or k is None or k < 8:
+            nv += 1
+            run.violation("panic", "the engine did not answer print after position", {"script": ["uci"] + sc, "rc": rc, "stderr": err[-300:]})
+            continue
+        rows = lines[k - 8:k]
+        board = "".join(r.replace("-", ".") for r in reversed(rows))
+        want_abs = so.split("abs=")[1].split(" ")[0]
+        reached = int(so.split(" reached=")[1].split(" ")[0])
+        unknown = [u for u in so.split(" unknown=")[1].split(";") if u]
+        nkeys = sum(1 for l in lines if l.startswith("0x"))
+        diag = [l[len("info string unknown move "):] for l in lines if l.startswith("info string unknown move ")]
+        turn = "w" if lines[k] == "Turn: White" else "b"
+        bad = None
+        if board != want_abs.split("/")[0] or turn != want_abs.split("/")[1]:
+            bad = "board or side to move after `position` differs from applying the tokens that denote legal moves"
+        elif nkeys != reached + 1:
+            bad = f"history holds {nkeys} keys for {reached + 1} positions"
+        elif diag != unknown:
+            bad = f"unknown-move diagnostics {diag} but the tokens denoting nothing are {unknown}"
+        if bad:
+            nv += 1
+            if nv <= 25:
+                run.violation("position-moves", "through the command loop: " + bad,
+                              {"script": ["uci"] + sc, "board_printed(rank 1 first)": board, "specification": so,
+                               "repro": "printf 'uci\\n" + "\\n".join(sc) + "\\n' | " + rel})
+    run.cov["traces_validated_against_impl"] = len(rq) + len(pj)
     run.sample({"request": rq[0], "implementation": impl[0][:300], "specification": spec[0][:200]})
+    run.sample({"script": pj[0], "specification": pso[0][:200]})
     run.cov["explanation"] = ("moves_cmd lemmas proved on the model (one key pushed per move made, unknown tokens leave position and history "
                               "unchanged); agreement with the specification's reading of token lists checked above")
 
